@@ -474,6 +474,8 @@ let run_prog_gen (kept : bool) dt (prog : string) (impl : string) : outcome =
                   | Some g -> g f | None -> operand_ids o in
                 let gn = (match conv with Some (_, _, g) -> g | None -> gname (zguard before op)) in
                 let gn = if gn = "other" then "L" ^ String.concat "," (List.map (layout_tag before) ids) else gn in
+                (* TensorMul with negative axes (named in the glue: the Coq guard has no case for it) *)
+                let gn = if f.(0) = "tmul" && List.exists (fun x -> x < 0) (ints f.(3) @ ints f.(4)) then "negative-axes" else gn in
                 cls := f.(0) ^ (if Array.length f > 1 && (f.(0) = "bin" || f.(0) = "bins" || f.(0) = "cmp" || f.(0) = "cmps" || f.(0) = "un" || f.(0) = "apply" || f.(0) = "reduce" || f.(0) = "reducefn" || f.(0) = "arg" || f.(0) = "lin") then "." ^ List.hd (String.split_on_char '.' f.(1)) else "") ^ ":" ^ gn
                        ^ ":" ^ symptom (strip_model_only mstr) sstr;
                 (* after a divergence the two states are no longer related *)
@@ -532,6 +534,9 @@ let () =
               | _ -> []) (Array.to_list (fields ops.(!k)))) in
           let tags = List.map (layout_tag !m) (operand_ids ops.(!k) @ dests) in
           let gn = if gn = "order-mix" && tags <> [] && List.for_all (fun t -> String.contains t 'c') tags then "all-col-major" else gn in
+          (* a destination that needs an iterator (lazily transposed, view, other order) while the
+             default engine's guard is satisfied *)
+          let gn = if gn = "UNGUARDED" && List.exists (fun d -> layout_tag !m d <> "") dests then "dest-needs-iterator" else gn in
           (* the option mode, and whether a destination tensor has another shape than the operand
              (it is then reshaped by the option handling) *)
           let mode = List.fold_left (fun acc tok ->
